@@ -1,0 +1,46 @@
+//go:build verif
+
+// Contracts for package mathext (comment-only; read by /verif/govc).
+
+package mathext
+
+//@ func RepeatUint32(v uint32) (r uint64)
+//@   property C17
+//@   ensures r & 0xffffffff == uint64(v)
+//@   ensures r >> 32 == uint64(v)
+//@
+//@ func pdepGeneric(x uint64, mask uint64) (r uint64)
+//@   property C17
+//@   ensures r == pdepS(x, mask, 1)
+//@   loop 1:
+//@     invariant pdepS(old(x), old(mask), 1) == result | pdepS(x, mask, srcBit)
+//@     invariant x == old(x)
+//@     unfold pdepS(x, mask, srcBit)
+//@     decreases mask
+//@
+//@ func pextGeneric(x uint64, mask uint64) (r uint64)
+//@   property C17
+//@   ensures r == pextS(x, mask, 1)
+//@   loop 1:
+//@     invariant pextS(old(x), old(mask), 1) == result | pextS(x, mask, resultBit)
+//@     invariant x == old(x)
+//@     unfold pextS(x, mask, resultBit)
+//@     decreases mask
+//@
+//@ func Min(a T, b T) (r T)
+//@   property C08 C14
+//@   ensures (a <= b ==> r == a) && (a > b ==> r == b)
+//@
+//@ func Max(a T, b T) (r T)
+//@   property C08 C14
+//@   ensures (a >= b ==> r == a) && (a < b ==> r == b)
+//@
+//@ func Mid(a T, b T, c T) (r T)
+//@   property C08
+//@   ensures r == max(min(a, b), min(max(a, b), c))
+//@
+//@ func WithinRange(v T, target T, margin T) (r bool)
+//@   property C08
+//@   requires margin >= 0
+//@   requires fits(mathint(target) - mathint(margin), v) && fits(mathint(target) + mathint(margin), v)
+//@   ensures r <==> (mathint(target) - mathint(margin) <= mathint(v) && mathint(v) <= mathint(target) + mathint(margin))
